@@ -96,7 +96,9 @@ prop("C06", "model_checking",
      "parser being entered, and the replaced parser's PRECONDITION (callback accepted this very path) is "
      "discharged at its only call site. A call-graph fact recomputed each run shows the parser and fopen/getline "
      "are reachable only through that function. The layered readers are under contract for forwarding the "
-     "caller's callback/data unchanged and for handing back nothing after a failure.",
+     "caller's callback/data unchanged and for handing back nothing after a failure; so are the single-file and "
+     "two-directory entry points (dfcc, jobs entry.*: callback/data forwarded unchanged, NULL/NULL for the plain "
+     "variants).",
      "Trusted: the callback does not touch library state; file system behaves as the lstat/scandir stubs allow "
      "(any POSIX result). Real directory contents are not explored.",
      "CBMC function contracts (dfcc) with ghost call log; precondition of the replaced parser; call-graph fact",
@@ -108,7 +110,10 @@ prop("C16", "proof",
      "requires 'gate passed' at its only call site. The five setter/reset functions are under contract for their "
      "exact post-state. Call-graph fact: no other path into the parser. That the refusal of ANY consulted file "
      "(main file or drop-in) reaches the caller of every layered entry point as that code, with nothing handed "
-     "back, is the bounded part (history.*, dropins.*, wrappers.fn7/8: labelled bounded, not counted as proved).",
+     "back, is the bounded part (history.*, dropins.*, wrappers.fn7/8: labelled bounded, not counted as proved). "
+     "The single-file entry points econf_readFile / econf_readFileWithCallback are under dfcc contracts on top of "
+     "that proved contract (jobs entry.*): every restriction's code reaches the caller, the parser runs only behind "
+     "the gate.",
      "Trusted: lstat reports the truth about the file; the kernel's notion of owner/group/symlink.",
      "CBMC function contracts (dfcc), loop-free, full-domain symbolic stat results", "6 C16")
 PARSER_NOTE = ("Bounded: the line under test is every byte string up to the stated N (8-11 bytes) in a finite, "
@@ -186,7 +191,11 @@ prop("C12", "model_checking",
      "two-directory entry points and their callback/history variants hand over the identical tuple; the merged "
      "reader is proved (dfcc) to be the history reader followed by merge_econf_files on that very array; the fold "
      "itself and the history contents (one member per file read, own path, NULL-terminated) are jobs fold.* / "
-     "history.* / dropins.*.",
+     "history.* / dropins.*. The four two-directory entry points are additionally under dfcc contracts (jobs "
+     "entry.econf_readDirs*): layer list (distribution dir or \"\", /etc dir or \"\") in that order, no options, "
+     "process-wide drop-in list, name/suffix/delimiters/comment set and callback/data forwarded unchanged - the "
+     "merged variants against the PROVED contract of readConfigWithCallback, the history variants against a "
+     "logging contract of the history reader.",
      LAYERED_NOTE + " Determinism of the internal reader for identical arguments is assumed.",
      "CBMC: dfcc contract on readConfigWithCallback + bounded symbolic execution of the entry points", "6 C12")
 prop("C20", "model_checking",
@@ -195,7 +204,9 @@ prop("C20", "model_checking",
      "(absent, rejected, wrong owner, parse error; main file or n-th drop-in) the readers have released every "
      "object they created and the out-pointers are NULL / untouched; on success exactly the handed-out objects are "
      "live; the fold releases every input and intermediate once; read_file_with_callback and readConfigWithCallback "
-     "under dfcc contracts with frees clauses.",
+     "under dfcc contracts with frees clauses; the single-file and two-directory entry points under dfcc contracts "
+     "(jobs entry.*): after a failure the caller's pointer is NULL, the object created for the call and a partial "
+     "merge result are released exactly once, the history variants leak nothing (CBMC memory-leak check).",
      LAYERED_NOTE + " Definedness of memory and allocation failure are not covered (CBMC has no such check; "
      "--no-malloc-may-fail).", "CBMC ownership counters + dfcc frees clauses along the layered-read chain", "6 C20")
 
